@@ -207,21 +207,47 @@ func (obj *Package) Unuse(pkg *Package) {
 				break
 			}
 		}
-		// Rebuild to make sure use tree branches are removed as well.
-		obj.vars = map[string]*VarVal{}
-		obj.funcs = map[string]*FuncInfo{}
-		obj.classes = map[string]Class{}
-		for _, p := range obj.Uses {
-			for name, vv := range p.vars {
-				obj.vars[name] = vv
-			}
-			for name, fi := range p.funcs {
-				obj.funcs[name] = fi
-			}
-			for name, c := range p.classes {
-				obj.classes[name] = c
+		// Rebuild to make sure use tree branches are removed as well. The
+		// package's own definitions and imports are kept and only the
+		// exported entries of the remaining used packages are visible.
+		vars := make(map[string]*VarVal, len(obj.vars))
+		funcs := make(map[string]*FuncInfo, len(obj.funcs))
+		classes := make(map[string]Class, len(obj.classes))
+		for name, vv := range obj.vars {
+			if vv.Pkg == obj || obj.Imports[name] != nil {
+				vars[name] = vv
 			}
 		}
+		for name, fi := range obj.funcs {
+			if fi.Pkg == obj || obj.Imports[name] != nil {
+				funcs[name] = fi
+			}
+		}
+		for name, c := range obj.classes {
+			if c.Pkg() == obj {
+				classes[name] = c
+			}
+		}
+		for _, p := range obj.Uses {
+			for name, vv := range p.vars {
+				if _, has := vars[name]; !has && vv.Export {
+					vars[name] = vv
+				}
+			}
+			for name, fi := range p.funcs {
+				if _, has := funcs[name]; !has && fi.Export {
+					funcs[name] = fi
+				}
+			}
+			for name, c := range p.classes {
+				if _, has := classes[name]; !has {
+					classes[name] = c
+				}
+			}
+		}
+		obj.vars = vars
+		obj.funcs = funcs
+		obj.classes = classes
 	}
 }
 
